@@ -514,7 +514,7 @@ class List(BlockToken):
         if (marker_tuple is not None):
             _, _, leader, content = marker_tuple
             if not content.strip() == '':
-                return not leader[0].isdigit() or leader in ['1.', '1)']
+                return not leader[0].isdigit() or int(leader[:-1]) == 1
         return False
 
     @classmethod
